@@ -10,6 +10,7 @@ import (
 	"sync"
 	"sync/atomic"
 
+	"github.com/RoaringBitmap/roaring/v2"
 	segment "github.com/blevesearch/scorch_segment_api/v2"
 	zap "github.com/blevesearch/zapx/v16"
 
@@ -133,6 +134,7 @@ func clusteredHistories(c *ctx) string {
 		var trail []string
 		// every search without an exclusion bitmap goes through ONE handle kept open for the whole
 		// history (a searcher keeps its handle across queries)
+		ownBM := roaring.New()
 		var shared segment.VectorIndex
 		if oi%2 == 0 {
 			shared, err = seg.(segment.VectorSegment).InterpretVectorIndex("vec", true, nil)
@@ -145,6 +147,11 @@ func clusteredHistories(c *ctx) string {
 			s := searches[i]
 			if shared != nil && s.except == nil {
 				return searchHandle(shared, s.q, s.k, s.eligible, s.filtered)
+			}
+			if oi%3 != 1 {
+				// this history's caller owns one exclusion bitmap and rewrites it before every open
+				callerBitmap = ownBM
+				defer func() { callerBitmap = nil }()
 			}
 			return run(seg, s)
 		}
@@ -325,5 +332,166 @@ func twoFieldsExpireTogether(c *ctx) string {
 		}
 	}
 	c.Case("two-fields-expire-together", true)
+	return ""
+}
+
+// C16: one caller-owned exclusion bitmap rewritten in place between the opens of a segment (sets of
+// equal and of different size); every search is compared with the same search on a freshly opened
+// copy that is given a fresh bitmap.
+func inPlaceBitmapHistory(c *ctx) string {
+	const nd, dims = 30, 3
+	var b zh.Batch
+	for d := 0; d < nd; d++ {
+		b = append(b, zh.Doc{Fields: []zh.Field{zh.IDField(fmt.Sprintf("B%04d", d)),
+			{Name: "vec", Typ: 'v', Vec: &zh.VecDef{Dims: dims, Sim: "l2_norm", Opt: "recall", Data: randVec(c, dims)}}}})
+	}
+	sb, _, err := zh.Build(b, 1026)
+	if err != nil {
+		return "build failed: " + err.Error()
+	}
+	path := zh.TmpPath("c16b")
+	if err := zap.PersistSegmentBase(sb, path); err != nil {
+		return "persist failed: " + err.Error()
+	}
+	sb.Close()
+	defer os.Remove(path)
+	steps := [][]uint64{{1, 4}, {0, 4}, {0, 5}, {2, 5}, {2, 5, 7}, {3, 5, 7}, {3, 6, 7}, {9}, {8}, {1, 4}}
+	for round := 0; round < c.n(3, 40); round++ {
+		s, err := zh.Plugin.Open(path)
+		if err != nil {
+			return "open failed: " + err.Error()
+		}
+		own := roaring.New()
+		var trail []string
+		for si, ex := range steps {
+			if round > 0 {
+				ex = nil
+				for len(ex) < 2+si%2 {
+					ex = append(ex, uint64(c.R.Intn(nd)))
+				}
+			}
+			for _, k := range []int64{1, 3, nd} {
+				q := randVec(c, dims)
+				filtered := c.R.Chance(3)
+				var eligible []uint64
+				if filtered {
+					isEx := map[uint64]bool{}
+					for _, d := range ex {
+						isEx[d] = true
+					}
+					for d := uint64(0); d < nd; d++ {
+						if !isEx[d] {
+							eligible = append(eligible, d)
+						}
+					}
+				}
+				fresh, err := zh.Plugin.Open(path)
+				if err != nil {
+					s.Close()
+					return "open failed: " + err.Error()
+				}
+				want, bad := runSearch(fresh.(segment.VectorSegment), "vec", q, k, ex, false, eligible, filtered)
+				fresh.Close()
+				if bad != "" {
+					s.Close()
+					return "reference search on a freshly opened copy: " + bad
+				}
+				callerBitmap = own
+				got, bad := runSearch(s.(segment.VectorSegment), "vec", q, k, ex, false, eligible, filtered)
+				callerBitmap = nil
+				trail = append(trail, fmt.Sprintf("except=%v k=%d filtered=%v", ex, k, filtered))
+				if bad == "" && hitKey(got) != hitKey(want) {
+					bad = fmt.Sprintf("got (doc, score bits) %v, the freshly opened copy answers %v", got, want)
+				}
+				if bad != "" {
+					s.Close()
+					return fmt.Sprintf("a caller that owns ONE exclusion bitmap and rewrites it in place before each open; segment of %d vectors; history %v\nlast search: %s", nd, trail, bad)
+				}
+				c.Count("searches_with_a_bitmap_rewritten_in_place")
+			}
+		}
+		s.Close()
+	}
+	return ""
+}
+
+// C16: a handle stays open over several idle expiry passes, then the field is opened once or twice
+// more, another pass runs: the cached index must stay alive as long as a handle is open, searches
+// through the old handle must work, and after everything is closed the index is released once.
+func pinnedAcrossIdlePasses(c *ctx) string {
+	const nd, dims = 20, 3
+	var b zh.Batch
+	for d := 0; d < nd; d++ {
+		b = append(b, zh.Doc{Fields: []zh.Field{zh.IDField(fmt.Sprintf("P%04d", d)),
+			{Name: "vec", Typ: 'v', Vec: &zh.VecDef{Dims: dims, Sim: "l2_norm", Opt: "recall", Data: randVec(c, dims)}}}})
+	}
+	sb, _, err := zh.Build(b, 1026)
+	if err != nil {
+		return "build failed: " + err.Error()
+	}
+	path := zh.TmpPath("c16p")
+	if err := zap.PersistSegmentBase(sb, path); err != nil {
+		return "persist failed: " + err.Error()
+	}
+	sb.Close()
+	defer os.Remove(path)
+	for idle := 0; idle <= 8; idle++ {
+		for extra := 1; extra <= 2; extra++ {
+			for _, closeFirst := range []bool{false, true} {
+				waitLive(0)
+				baseLive, baseDbl, baseUac := engineCounters()
+				s, err := zh.Plugin.Open(path)
+				if err != nil {
+					return "open failed: " + err.Error()
+				}
+				seg := s.(*zap.Segment)
+				what := fmt.Sprintf("handle H1 opened and searched; %d expiry passes without any use; %d more open(s) of the field (each searched and closed); one more expiry pass", idle, extra)
+				h1, err := seg.InterpretVectorIndex("vec", false, nil)
+				if err != nil {
+					seg.Close()
+					return "InterpretVectorIndex error: " + err.Error()
+				}
+				q := randVec(c, dims)
+				want, bad := searchHandle(h1, q, nd, nil, false)
+				for i := 0; i < idle && bad == ""; i++ {
+					zap.VerifVectorCacheTick(&seg.SegmentBase)
+				}
+				for e := 0; e < extra && bad == ""; e++ {
+					_, bad = runSearch(seg, "vec", randVec(c, dims), 3, nil, true, nil, false)
+				}
+				if bad == "" {
+					zap.VerifVectorCacheTick(&seg.SegmentBase)
+					if live, _, _ := engineCounters(); live < baseLive+1 {
+						bad = "the native index has been released although handle H1 is still open"
+					}
+				}
+				if bad == "" {
+					var got []vhit
+					got, bad = searchHandle(h1, q, nd, nil, false)
+					if bad == "" && hitKey(got) != hitKey(want) {
+						bad = "the same search through H1 answers differently than before"
+					}
+				}
+				if bad == "" && closeFirst {
+					h1.Close()
+					h1 = nil
+					_, bad = runSearch(seg, "vec", q, 3, nil, true, nil, false)
+				}
+				if h1 != nil {
+					h1.Close()
+				}
+				seg.Close()
+				live := waitLive(baseLive)
+				_, dbl, uac := engineCounters()
+				c.Count("pinned_handle_histories")
+				if bad == "" && (live != baseLive || dbl != baseDbl || uac != baseUac) {
+					bad = fmt.Sprintf("after closing every handle and the segment: %d native indexes live (want 0), %d double closes, %d uses after close", live-baseLive, dbl-baseDbl, uac-baseUac)
+				}
+				if bad != "" {
+					return what + "\n" + bad
+				}
+			}
+		}
+	}
 	return ""
 }
